@@ -88,4 +88,6 @@ fn main() {
         }
     }
     fs::write(format!("{prefix}.stats"), s).unwrap();
+    fs::write(format!("{prefix}.ops"), out.model_ops.join("\n") + "\n").unwrap();
+    fs::write(format!("{prefix}.impl"), out.model_impl.join("\n") + "\n").unwrap();
 }
